@@ -444,6 +444,53 @@ fn big_input_layer(col: &Collector, ctx: &Ctx) {
     col.layer("big input (4200 lines): interrupt before line k", done, complete, json!({"k": ks.len(), "statements": stmts, "files": ["one", "4000+200"]}));
 }
 
+/// joined files with an unreadable line (invalid UTF-8) / a line that is no row far behind the window of ten lines: an
+/// interrupt before the load or at one of the first lines of the load must end the query without error and without
+/// output - the rest of the joined file is not read (a loader that fetches the file before it polls would report the line)
+fn bad_joined_layer(col: &Collector) -> Vec<Failure> {
+    let tables = sut::make_tables(&format!("{}\n{}", JDEF, JDEF_U)).unwrap();
+    let mut out = Vec::new();
+    let mut n = 0u64;
+    for bad_at in [40usize, 200] {
+        let mut content = joined_content(bad_at);
+        content.extend_from_slice(&[0xFF, 0xFE, b'x', b'\n']);
+        content.extend_from_slice(&joined_content(5));
+        let tmp = sut::TempFiles::new(&[content.as_slice()]);
+        let main: Vec<u8> = jlines().iter().take(3).flat_map(|l| format!("{}\n", l).into_bytes()).collect();
+        for text in [format!("SELECT t.k, v, y FROM t INNER JOIN u::'{}' ON t.k = u.k", tmp.paths[0]), format!("SELECT t.k, COUNT(*) FROM t OUTER JOIN u::'{}' ON t.k = u.k GROUP BY t.k", tmp.paths[0])] {
+            let mut points = vec![Interrupt::BeforeStart];
+            points.extend((0..12).map(Interrupt::BeforeJoinLoad));
+            for p in points {
+                let (r, c) = run_with(&tables, &text, &[main.as_slice()], &p);
+                n += 1;
+                col.eval(1);
+                col.nontrivial(h64(&("bad-joined", bad_at, &text, format!("{:?}", p))));
+                let case = json!({"layer": "bad-joined", "bad_line_at": bad_at, "statement": text.replace(tmp.paths[0].as_str(), "<joined>"), "interrupt": format!("{:?}", p)});
+                let dev: Option<String> = match &r {
+                    Outcome::Panic(pr) => Some(format!("panic: {}", pr.msg)),
+                    Outcome::Err(e) => Some(format!("error: {}", e)),
+                    Outcome::Ok(fr) => {
+                        if let Err(e) = &fr.result {
+                            Some(format!("error reported: {}", e))
+                        } else if !nonblank(&fr.printed).is_empty() && !text.contains("COUNT") {
+                            Some(format!("rows printed: {:?}", nonblank(&fr.printed)))
+                        } else if c.join_after_interrupt > 11 {
+                            Some(format!("{} joined lines loaded after the interrupt", c.join_after_interrupt))
+                        } else {
+                            None
+                        }
+                    }
+                };
+                if let Some(d) = dev {
+                    out.push(fail(format!("join-load:unreadable-line-behind-the-window:{}", d.split(':').next().unwrap_or("")), format!("`{}` (unreadable joined line {}) interrupted at {:?}: {}", text.replace(tmp.paths[0].as_str(), "<joined>"), bad_at, p, d), case, json!("ends without error, without reading on"), json!(d), n));
+                }
+            }
+        }
+    }
+    col.layer("joined file with an unreadable line behind the poll window", n, true, json!({"bad_line_at": [40, 200], "interrupts": "before start, before joined line 0..11"}));
+    out
+}
+
 fn cli_sigint_layer(col: &Collector) {
     let mut n_cases = 0u64;
     let mut missing = false;
@@ -570,6 +617,9 @@ pub fn run(ctx: &Ctx) -> i32 {
         }
         col.layer("follow-mode interrupt (FollowFileExecutor in child processes)", nf, true, json!({"interrupt_points": "before load 0..4", "statements": 3}));
         big_input_layer(&col, ctx);
+    for f in bad_joined_layer(&col) {
+        col.fail(f);
+    }
     cli_sigint_layer(&col);
     }
     finish(
@@ -591,6 +641,9 @@ pub fn replay(case: &J) -> Vec<Failure> {
         cli_sigint_layer(&col);
         let f = col.failures.lock().unwrap();
         return f.values().flat_map(|v| v.iter().cloned()).filter(|f| f.case == *case).collect();
+    }
+    if case["layer"].as_str() == Some("bad-joined") {
+        return bad_joined_layer(&Collector::new()).into_iter().filter(|f| f.case == *case).collect();
     }
     if case["layer"].as_str() == Some("big-input") {
         let col = Collector::new();
